@@ -495,7 +495,12 @@ func (obj *AvlIterator) Next() {
     return
   }
   if obj.node.Deleted || obj.value != obj.node.Value {
-    obj.node = obj.tree.FindNodeLE(obj.value+1)
+    if obj.value+1 < obj.value {
+      // value is the largest integer, there is no larger element
+      obj.node = nil
+    } else {
+      obj.node = obj.tree.FindNodeLE(obj.value+1)
+    }
   } else
   if obj.node.Right != nil {
     // there is a node to the right where we can go
